@@ -1,15 +1,121 @@
-(* C16: what is proved about Close + NewTreePersistent (Tree/Reopen.v).
-
-   Proved in general (TreeProofs.v, re-exported in Properties/C16.v): the invariant [WF] that the reopen argument
-   rests on holds after every history on a persistent tree -- the pages below nextPage are exactly the pages of the
-   tree plus the free list, without duplicates (so the pages reinit does not reach from the root are exactly the
-   free list, a simple chain whose head nobody points to), NumLeafKeys / NumPagesFree are exact recounts, and
-   nextPage*pageSize <= len(data) <= file size - 8 (so the frontier scan with the repaired bound stays inside data).
-   NOT proved in general: reinit (persist st) = st up to the buffer fields.  [reopen_agrees] below is the boolean
-   form of that statement; it is evaluated on concrete histories at every split point. *)
-From Ristretto Require Import Base.Word Tree.Node Tree.NodeProofs Tree.Tree Tree.TreeProofs Tree.Reopen.
+(* C16: Close + NewTreePersistent (Tree/Reopen.v) gives back the same tree, allocator state and statistics. *)
+From Ristretto Require Import Base.Word Base.ListX Tree.Node Tree.NodeProofs Tree.Tree Tree.TreeProofs Tree.Reopen.
+From Coq Require Import ZifyN ZifyNat ZifyBool Permutation.
 Open Scope N_scope.
 
+(* ---------- induction on trees ---------- *)
+Lemma tree_ind2 (P : tree -> Prop) :
+  (forall pid es, P (Leaf pid es)) ->
+  (forall pid cs, Forall (fun e => P (snd e)) cs -> P (Node pid cs)) -> forall t, P t.
+Proof.
+  intros HL HN. fix IH 1. intros [pid es|pid cs]; [apply HL|]. apply HN.
+  induction cs as [|[k c] r IHr]; constructor; [apply IH|exact IHr].
+Qed.
+
+Definition ptabk (cs : list (N * tree)) : list (N * pentry) := flat_map (fun e => ptab (snd e)) cs.
+Lemma ptab_node pid cs : ptab (Node pid cs) = (pid, node_entry (Node pid cs)) :: ptabk cs.
+Proof. reflexivity. Qed.
+
+Lemma ptab_keys t : map fst (ptab t) = pids t.
+Proof.
+  induction t as [pid es|pid cs IH] using tree_ind2; [reflexivity|].
+  rewrite ptab_node, pids_node. cbn [map fst]. f_equal.
+  induction IH as [|[k c] r Hc Hr IHr]; [reflexivity|].
+  unfold ptabk, pidsk in *. cbn [flat_map snd] in *. rewrite map_app, Hc, IHr. reflexivity.
+Qed.
+
+Definition nonblank (x : N * pentry) : Prop := snd x <> PBlank.
+Lemma ptab_nonblank t : Forall nonblank (ptab t).
+Proof.
+  induction t as [pid es|pid cs IH] using tree_ind2; [repeat constructor; discriminate|].
+  rewrite ptab_node. constructor; [discriminate|].
+  induction IH as [|[k c] r Hc Hr IHr]; [constructor|].
+  unfold ptabk in *. cbn [flat_map snd]. apply Forall_app. split; assumption.
+Qed.
+Lemma ftab_nonblank fl : Forall nonblank (ftab fl).
+Proof. induction fl as [|h r IH]; constructor; [discriminate|exact IH]. Qed.
+Lemma ftab_keys fl : map fst (ftab fl) = fl.
+Proof. induction fl as [|h r IH]; cbn [ftab map fst]; [reflexivity|]. rewrite IH. reflexivity. Qed.
+
+Lemma height_le_pids t : (height t <= length (pids t))%nat.
+Proof.
+  induction t as [pid es|pid cs IH] using tree_ind2; [cbn; lia|].
+  rewrite height_node, pids_node. cbn [length]. apply le_n_S.
+  induction IH as [|[k c] r Hc Hr IHr]; [cbn; lia|].
+  rewrite hmax_cons, pidsk_cons, app_length. cbn [snd] in Hc. lia.
+Qed.
+
+(* ---------- association lists ---------- *)
+Lemma assoc_in tab p e : NoDup (map fst tab) -> In (p, e) tab -> assoc p tab = e.
+Proof.
+  induction tab as [|x r IH]; intros Hnd Hin; [destruct Hin|].
+  cbn [map] in Hnd. inversion Hnd as [|? ? Hx Hr]; subst. cbn [assoc].
+  destruct Hin as [->|Hin].
+  - cbn [fst snd]. rewrite N.eqb_refl. reflexivity.
+  - destruct (N.eqb_spec (fst x) p) as [E|_]; [|apply IH; assumption].
+    exfalso. apply Hx. rewrite E. change p with (fst (p, e)). apply in_map. exact Hin.
+Qed.
+Lemma assoc_notin tab p : ~ In p (map fst tab) -> assoc p tab = PBlank.
+Proof.
+  induction tab as [|x r IH]; intros H; [reflexivity|]. cbn [assoc map In] in *.
+  destruct (N.eqb_spec (fst x) p); [tauto|]. apply IH. tauto.
+Qed.
+Lemma assoc_nonblank tab p : Forall nonblank tab -> In p (map fst tab) -> assoc p tab <> PBlank.
+Proof.
+  induction 1 as [|x r Hx Hr IH]; intros Hin; [destruct Hin|]. cbn [assoc map In] in *.
+  destruct (N.eqb_spec (fst x) p); [exact Hx|]. apply IH. tauto.
+Qed.
+
+(* ---------- rebuild ---------- *)
+Section Rebuild.
+  Variable tab : list (N * pentry).
+  Hypothesis Hnd : NoDup (map fst tab).
+  Let pg := fun p => assoc p tab.
+
+  Lemma rebuild_kids_ok (rec : N -> option tree) cs :
+    Forall (fun e => rec (pid_of (snd e)) = Some (snd e) /\ pid_of (snd e) <> 0) cs ->
+    rebuild_kids rec (map (fun e => (fst e, pid_of (snd e))) cs) = Some cs.
+  Proof.
+    induction 1 as [|[k c] r [Hc Hz] Hr IH]; [reflexivity|]. cbn [map rebuild_kids fst snd] in *.
+    destruct (N.eqb_spec (pid_of c) 0); [congruence|]. rewrite Hc, IH. reflexivity.
+  Qed.
+
+  Lemma rebuild_ok f : forall t, (height t < f)%nat -> incl (ptab t) tab -> Forall (fun p => p <> 0) (pids t) ->
+    rebuild f pg (pid_of t) = Some t.
+  Proof.
+    induction f as [|f IH]; intros t Hh Hincl Hnz; [lia|].
+    assert (Hpg : pg (pid_of t) = node_entry t).
+    { unfold pg. apply assoc_in; [exact Hnd|]. apply Hincl. destruct t; left; reflexivity. }
+    cbn [rebuild]. rewrite Hpg. destruct t as [pid es|pid cs]; [reflexivity|].
+    cbn [node_entry pid_of]. rewrite rebuild_kids_ok; [reflexivity|].
+    rewrite height_node in Hh. rewrite ptab_node in Hincl. rewrite pids_node in Hnz.
+    apply incl_cons_inv in Hincl. destruct Hincl as [_ Hincl]. inversion Hnz as [|? ? _ Hnz']; subst.
+    clear Hpg Hnz. induction cs as [|[k c] r IHr]; [constructor|].
+    rewrite hmax_cons in Hh. unfold ptabk in Hincl. cbn [flat_map snd] in Hincl.
+    apply incl_app_inv in Hincl. destruct Hincl as [Hc Hr].
+    rewrite pidsk_cons in Hnz'. apply Forall_app in Hnz'. destruct Hnz' as [Hzc Hzr].
+    constructor; cbn [snd].
+    - split; [apply IH; [lia|exact Hc|exact Hzc]|].
+      destruct c; cbn [pids pid_of] in *; inversion Hzc; assumption.
+    - apply IHr; [lia|exact Hr|exact Hzr].
+  Qed.
+End Rebuild.
+
+(* ---------- frontier ---------- *)
+Lemma frontier_ok ps pg dlen np : 0 < ps -> np * ps <= dlen ->
+  (forall q, 1 <= q < np -> page_id_zero (pg q) = false) -> page_id_zero (pg np) = true ->
+  forall f q, 1 <= q <= np -> (N.to_nat (np - q) < f)%nat -> frontier ps f pg dlen q = np.
+Proof.
+  intros Hps Hd Hnb Hb. induction f as [|f IH]; intros q Hq Hf; [lia|]. cbn [frontier].
+  destruct (N.eq_dec q np) as [->|Hne].
+  - rewrite Hb. destruct ((np + 1) * ps <=? dlen); reflexivity.
+  - assert (Hle : (q + 1) * ps <= dlen).
+    { eapply N.le_trans; [|exact Hd]. apply N.mul_le_mono_r. lia. }
+    destruct (N.leb_spec ((q + 1) * ps) dlen); [|lia].
+    rewrite Hnb by lia. apply IH; lia.
+Qed.
+
+(* ---------- the observable state, and the reopen statement in boolean form ---------- *)
 Fixpoint list_eqb {A} (eqb : A -> A -> bool) (a b : list A) : bool :=
   match a, b with
   | [], [] => true
@@ -47,3 +153,233 @@ Definition reopen_agrees (M : nat) (ps : N) (a b : list op) : bool :=
 
 Definition all_splits (M : nat) (ps : N) (ops : list op) : bool :=
   forallb (fun i => reopen_agrees M ps (firstn i ops) (skipn i ops)) (seq 0 (S (length ops))).
+
+(* ---------- the free list as reinit finds it ---------- *)
+Lemma memN_in p l : memN p l = true <-> In p l.
+Proof.
+  unfold memN. rewrite existsb_exists. split.
+  - intros (x & Hx & E). apply N.eqb_eq in E. subst. exact Hx.
+  - intros H. exists p. split; [exact H|apply N.eqb_refl].
+Qed.
+Lemma memN_false p l : memN p l = false <-> ~ In p l.
+Proof. rewrite <- memN_in. destruct (memN p l); split; congruence. Qed.
+
+Definition pages_upto (maxid : N) : list N := map (fun i => N.of_nat i) (seq 1 (N.to_nat maxid)).
+Lemma pages_upto_in maxid p : In p (pages_upto maxid) <-> 1 <= p <= maxid.
+Proof.
+  unfold pages_upto. rewrite in_map_iff. split.
+  - intros (i & <- & Hi). apply in_seq in Hi. lia.
+  - intros H. exists (N.to_nat p). split; [lia|]. apply in_seq. lia.
+Qed.
+Lemma pages_upto_nodup maxid : NoDup (pages_upto maxid).
+Proof.
+  unfold pages_upto. apply FinFun.Injective_map_NoDup; [|apply seq_NoDup].
+  intros x y H. lia.
+Qed.
+Lemma pages_upto_length maxid : length (pages_upto maxid) = N.to_nat maxid.
+Proof. unfold pages_upto. rewrite map_length, seq_length. reflexivity. Qed.
+
+Lemma ftab_in fl : forall pre p rest, fl = pre ++ p :: rest -> In (p, PFree (hd 0 rest)) (ftab fl).
+Proof.
+  induction fl as [|h r IH]; intros pre p rest E; [destruct pre; discriminate|].
+  destruct pre as [|x pre]; cbn [app] in E; injection E as -> ->.
+  - left. destruct rest; reflexivity.
+  - right. eapply IH. reflexivity.
+Qed.
+
+Lemma chain_list pg : forall F, Forall (fun p => p <> 0) F ->
+  (forall pre p rest, F = pre ++ p :: rest -> word0 (pg p) = hd 0 rest) ->
+  chain (length F) pg (hd 0 F) = F.
+Proof.
+  induction F as [|h r IH]; intros Hnz Hnext; [reflexivity|].
+  inversion Hnz as [|? ? Hh Hr]; subst. cbn [length chain hd].
+  destruct (N.eqb_spec h 0); [congruence|]. f_equal.
+  rewrite (Hnext [] h r eq_refl). apply IH; [exact Hr|].
+  intros pre p rest E. apply (Hnext (h :: pre) p rest). rewrite E. reflexivity.
+Qed.
+
+Lemma nodup_head_not_later (pre : list N) p x rest :
+  NoDup (pre ++ p :: x :: rest) -> hd 0 (pre ++ p :: x :: rest) <> x.
+Proof.
+  intros Hnd E. destruct pre as [|y pre]; cbn [app hd] in *.
+  - subst p. inversion Hnd as [|? ? Hx _]; subst. apply Hx. left. reflexivity.
+  - subst y. inversion Hnd as [|? ? Hx _]; subst. apply Hx. apply in_or_app. right. right. left. reflexivity.
+Qed.
+
+Section FreeList.
+  Variable pg : N -> pentry.
+  Variables F vis : list N.
+  Variable maxid : N.
+  Hypothesis HndF : NoDup F.
+  Hypothesis HF0 : Forall (fun p => p <> 0) F.
+  Hypothesis Hnext : forall pre p rest, F = pre ++ p :: rest -> word0 (pg p) = hd 0 rest.
+  Hypothesis Hpart : forall p, 1 <= p <= maxid -> In p vis \/ In p F.
+  Hypothesis Hdisj : forall p, In p vis -> ~ In p F.
+  Hypothesis HFr : forall p, In p F -> 1 <= p <= maxid.
+
+  Let nontail := filter (fun p => negb (memN p vis)) (pages_upto maxid).
+  Let pointed := filter (fun n => negb (n =? 0)) (map (fun p => word0 (pg p)) nontail).
+  Let heads := filter (fun p => negb (memN p pointed)) nontail.
+
+  Lemma nontail_in p : In p nontail <-> In p F.
+  Proof.
+    unfold nontail. rewrite filter_In, pages_upto_in, Bool.negb_true_iff, memN_false. split.
+    - intros [Hr Hn]. destruct (Hpart p Hr); tauto.
+    - intros H. split; [apply HFr; exact H|]. intros Hv. exact (Hdisj p Hv H).
+  Qed.
+
+  Lemma nontail_len : length nontail = length F.
+  Proof.
+    apply Permutation_length. apply NoDup_Permutation; [|exact HndF|apply nontail_in].
+    unfold nontail. apply NoDup_filter. apply pages_upto_nodup.
+  Qed.
+
+  Lemma pointed_in x : In x pointed <-> exists pre p rest, F = pre ++ p :: x :: rest.
+  Proof.
+    unfold pointed. rewrite filter_In, in_map_iff, Bool.negb_true_iff. split.
+    - intros [(p & E & Hp) Hx]. apply nontail_in in Hp. apply N.eqb_neq in Hx.
+      destruct (in_split _ _ Hp) as (pre & rest & EF). rewrite (Hnext pre p rest EF) in E.
+      destruct rest as [|y rest]; cbn [hd] in E; [congruence|]. subst y. eauto.
+    - intros (pre & p & rest & EF). split.
+      + exists p. split; [rewrite (Hnext pre p (x :: rest) EF); reflexivity|].
+        apply nontail_in. rewrite EF. apply in_or_app. right. left. reflexivity.
+      + apply N.eqb_neq. rewrite Forall_forall in HF0. apply HF0. rewrite EF. apply in_or_app. right. right. left. reflexivity.
+  Qed.
+
+  Lemma pointed_range : forallb (fun p => p <=? maxid) pointed = true.
+  Proof.
+    apply forallb_forall. intros x Hx. apply pointed_in in Hx. destruct Hx as (pre & p & rest & EF).
+    apply N.leb_le. apply HFr. rewrite EF. apply in_or_app. right. right. left. reflexivity.
+  Qed.
+
+  Lemma head_ok : match heads with h :: _ => h | [] => 0 end = hd 0 F.
+  Proof.
+    assert (HF : F = [] \/ exists h0 r, F = h0 :: r) by (clear; destruct F; eauto).
+    destruct HF as [EF|(h0 & r & EF)].
+    - rewrite EF at 1. assert (Hn : nontail = []).
+      { destruct nontail as [|x l] eqn:E; [reflexivity|]. exfalso.
+        assert (H : In x nontail) by (rewrite E; left; reflexivity). apply nontail_in in H. rewrite EF in H. exact H. }
+      unfold heads. rewrite Hn. reflexivity.
+    - assert (Hall : forall h, In h heads <-> h = h0).
+      { intros h. unfold heads. rewrite filter_In, Bool.negb_true_iff, memN_false, nontail_in, pointed_in. split.
+        - intros [Hin Hnp]. rewrite EF in Hin. destruct Hin as [->|Hin]; [reflexivity|]. exfalso. apply Hnp.
+          destruct (in_split _ _ Hin) as (r1 & r2 & Er).
+          destruct (@exists_last _ (h0 :: r1) ltac:(discriminate)) as (pre' & p & Ep).
+          exists pre', p, r2. rewrite EF, Er. change (h0 :: r1 ++ h :: r2) with ((h0 :: r1) ++ h :: r2).
+          rewrite Ep, <- app_assoc. reflexivity.
+        - intros ->. split; [rewrite EF; left; reflexivity|].
+          intros (pre & p & rest & E). apply (nodup_head_not_later pre p h0 rest).
+          + rewrite <- E. exact HndF.
+          + rewrite <- E, EF. reflexivity. }
+      rewrite EF at 1. cbn [hd]. destruct heads as [|h l] eqn:E.
+      + exfalso. assert (H : In h0 []) by (apply Hall; reflexivity). exact H.
+      + apply Hall. left. reflexivity.
+  Qed.
+End FreeList.
+
+Lemma NoDup_app_l {A} (l1 l2 : list A) : NoDup (l1 ++ l2) -> NoDup l1.
+Proof.
+  induction l1 as [|x l1 IH]; intros H; [constructor|]. cbn [app] in H. inversion H as [|? ? Hx Hr]; subst.
+  constructor; [|apply IH; exact Hr]. intros Hin. apply Hx. apply in_or_app. left. exact Hin.
+Qed.
+Lemma NoDup_app_r {A} (l1 l2 : list A) : NoDup (l1 ++ l2) -> NoDup l2.
+Proof. induction l1 as [|x l1 IH]; intros H; [exact H|]. cbn [app] in H. inversion H; subst. apply IH. assumption. Qed.
+
+(* ---------- reinit (persist st) ---------- *)
+Definition reopened (st : tstate) : tstate :=
+  let a := al st in
+  mkT (root st) (mkAlloc (nextPage a) (freeList a) (leafKeys a) (pagesFree a) (curSz a) (curSz a)) (height (root st)).
+
+Theorem reinit_persist M (HM : (4 <= M)%nat) ps st : 0 < ps -> WFa ps st ->
+  reinit ps (persist st) = Some (reopened st).
+Proof.
+  intros Hps Hwa.
+  destruct (wfa_pages M HM ps st Hwa) as (Hnd & Hrange & Hlk & Hpf).
+  destruct Hwa as [((Hnp1 & _) & _ & _ & Ho8 & Hoc & Hdl) Hroot].
+  unfold stat_leaf_keys, stat_pages_free in *.
+  set (a := al st) in *. set (F := freeList a) in *. set (np := nextPage a) in *.
+  set (tab := ptab (root st) ++ ftab F).
+  assert (Hkeys : map fst tab = pids (root st) ++ F)
+    by (unfold tab; rewrite map_app, ptab_keys, ftab_keys; reflexivity).
+  assert (Hndt : NoDup (map fst tab)) by (rewrite Hkeys; exact Hnd).
+  assert (Hnbt : Forall nonblank tab) by (apply Forall_app; split; [apply ptab_nonblank|apply ftab_nonblank]).
+  set (pg := fun p => assoc p tab).
+  assert (Hpg : pf_page (persist st) = pg) by reflexivity.
+  assert (Hsz : pf_size (persist st) = curSz a) by reflexivity.
+  (* frontier *)
+  assert (Hd : np * ps <= curSz a - 8) by (unfold data_len in Hdl; lia).
+  assert (Hfr : frontier ps (S (N.to_nat ((curSz a - 8) / ps))) pg (curSz a - 8) 1 = np).
+  { apply frontier_ok; auto.
+    - intros q Hq. unfold pg. pose proof (assoc_nonblank tab q Hnbt) as H. rewrite Hkeys in H.
+      specialize (H (proj2 (Hrange q) Hq)). destruct (assoc q tab); try reflexivity. congruence.
+    - unfold pg. rewrite assoc_notin; [reflexivity|]. rewrite Hkeys. intros H. apply Hrange in H. lia.
+    - lia.
+    - assert (np <= (curSz a - 8) / ps) by (apply N.div_le_lower_bound; lia). lia. }
+  (* traversal *)
+  assert (Hnz : Forall (fun p => p <> 0) (pids (root st) ++ F)).
+  { apply Forall_forall. intros p Hp. apply Hrange in Hp. lia. }
+  assert (Hlenp : (length (pids (root st)) <= N.to_nat (np - 1))%nat).
+  { rewrite <- pages_upto_length. apply NoDup_incl_length; [eapply NoDup_app_l; exact Hnd|].
+    intros p Hp. apply pages_upto_in. assert (H : 1 <= p < np) by (apply Hrange; apply in_or_app; left; exact Hp). lia. }
+  assert (Hrb : rebuild (S (N.to_nat (np - 1))) pg 1 = Some (root st)).
+  { pose proof (rebuild_ok tab Hndt (S (N.to_nat (np - 1))) (root st)) as H. rewrite Hroot in H. apply H.
+    - pose proof (height_le_pids (root st)). lia.
+    - unfold tab. apply incl_appl. apply incl_refl.
+    - apply Forall_app in Hnz. apply Hnz. }
+  assert (Hvis : forallb (fun p => (1 <=? p) && (p <=? np - 1)) (pids (root st)) = true).
+  { apply forallb_forall. intros p Hp. assert (H : 1 <= p < np) by (apply Hrange; apply in_or_app; left; exact Hp).
+    apply andb_true_intro. split; [apply N.leb_le|apply N.leb_le]; lia. }
+  (* free list *)
+  assert (HndF : NoDup F) by (eapply NoDup_app_r; exact Hnd).
+  assert (HF0 : Forall (fun p => p <> 0) F) by (apply Forall_app in Hnz; apply Hnz).
+  assert (Hnext : forall pre p rest, F = pre ++ p :: rest -> word0 (pg p) = hd 0 rest).
+  { intros pre p rest E. unfold pg. rewrite (assoc_in tab p (PFree (hd 0 rest)) Hndt); [reflexivity|].
+    unfold tab. apply in_or_app. right. eapply ftab_in. exact E. }
+  assert (Hpart : forall p, 1 <= p <= np - 1 -> In p (pids (root st)) \/ In p F).
+  { intros p Hp. apply in_app_or. apply Hrange. lia. }
+  assert (Hdisj : forall p, In p (pids (root st)) -> ~ In p F).
+  { intros p H1 H2. apply in_split in H1. destruct H1 as (l1 & l2 & E). rewrite E in Hnd.
+    rewrite <- app_assoc in Hnd. apply NoDup_remove_2 in Hnd. apply Hnd. apply in_or_app. right. apply in_or_app. right. exact H2. }
+  assert (HFr : forall p, In p F -> 1 <= p <= np - 1).
+  { intros p Hp. assert (H : 1 <= p < np) by (apply Hrange; apply in_or_app; right; exact Hp). lia. }
+  pose proof (nontail_len F (pids (root st)) (np - 1) HndF Hpart Hdisj HFr) as Hlen.
+  pose proof (pointed_range pg F (pids (root st)) (np - 1) HF0 Hnext Hpart Hdisj HFr) as Hpr.
+  pose proof (head_ok pg F (pids (root st)) (np - 1) HndF HF0 Hnext Hpart Hdisj HFr) as Hhd.
+  pose proof (chain_list pg F HF0 Hnext) as Hch.
+  unfold reinit. rewrite Hpg, Hsz. cbv zeta. rewrite Hfr, Hrb, Hvis. cbn [negb].
+  fold (pages_upto (np - 1)). rewrite Hpr. cbn [negb]. rewrite Hhd, Hlen, Hch.
+  unfold reopened. fold a. fold F. fold np. rewrite Hlk, Hpf. reflexivity.
+Qed.
+
+Theorem tree_reopen_spec M (HM : (4 <= M)%nat) ps st : 0 < ps -> WFa ps st ->
+  tree_reopen M ps st = Some (reopened st).
+Proof.
+  intros Hps Hwa. unfold tree_reopen.
+  assert (H1 : page_id_zero (pf_page (persist st) 1) = false).
+  { destruct (wfa_pages M HM ps st Hwa) as (_ & Hrange & _).
+    destruct Hwa as [_ Hroot].
+    assert (Hin : In 1 (map fst (ptab (root st) ++ ftab (freeList (al st))))).
+    { rewrite map_app, ptab_keys. apply in_or_app. left. rewrite <- Hroot. destruct (root st); left; reflexivity. }
+    pose proof (assoc_nonblank _ 1 (proj2 (Forall_app _ _ _) (conj (ptab_nonblank (root st)) (ftab_nonblank (freeList (al st))))) Hin) as Hnb.
+    unfold persist, page_of. cbn [pf_page].
+    destruct (assoc 1 (ptab (root st) ++ ftab (freeList (al st)))); try reflexivity. congruence. }
+  rewrite H1. apply (reinit_persist M HM); assumption.
+Qed.
+
+Lemma reopened_wf M ps st : WF M ps st -> WF M ps (reopened st).
+Proof.
+  intros [[Hwf Hd] [((Hnp1 & Hc) & Hlk & Hpf & Ho8 & Hoc & Hdl) Hroot]]. unfold reopened.
+  split; [split; cbn [root depth]; [exact Hwf|lia]|].
+  split; cbn [root al]; [|exact Hroot].
+  split; [split; [exact Hnp1|exact Hc]|]. cbn [leafKeys pagesFree freeList offset curSz nextPage].
+  unfold data_len in *. cbn [offset]. repeat split; auto; lia.
+Qed.
+
+Lemma reopened_same st : same_obs st (reopened st) = true.
+Proof.
+  unfold same_obs, reopened. cbn [root al nextPage freeList leafKeys pagesFree].
+  assert (HN : forall l, list_eqb N.eqb l l = true) by (induction l; cbn; [reflexivity|rewrite N.eqb_refl; assumption]).
+  assert (HP : forall l, list_eqb pair_eqb l l = true).
+  { induction l as [|x l IH]; cbn; [reflexivity|]. unfold pair_eqb at 1. rewrite !N.eqb_refl. exact IH. }
+  rewrite !HN, HP, N.eqb_refl, !Z.eqb_refl. reflexivity.
+Qed.
